@@ -17,6 +17,7 @@ type gFlags struct {
 	etype  string
 	sort   string
 	desc   string
+	reject bool // the flags must be refused (a period that does not exist)
 }
 
 func periodKeyOracle(kind string, a ymd) string {
@@ -155,6 +156,19 @@ func genFlags(r *Rand, doc *GDoc, today ymd, force string) *gFlags {
 		default:
 			pat = fmt.Sprintf("%04d", a.y)
 			f.dateOK = func(x ymd) bool { return x.y == a.y }
+		}
+		if r.P(1, 6) { // a period that does not exist: rejected, never rolled over into the next one
+			y := a.y
+			if y < 1 || y > 9998 {
+				y = 2021
+			}
+			bad := []string{fmt.Sprintf("%04d-W00", y), fmt.Sprintf("%04d-W54", y), fmt.Sprintf("%04d-13", y), fmt.Sprintf("%04d-00", y), fmt.Sprintf("%04d-Q5", y), fmt.Sprintf("%04d-Q0", y)}
+			if _, w := oracleIsoWeek(y, 12, 28); w == 52 { // 28 December is always in the last ISO week
+				bad = append(bad, fmt.Sprintf("%04d-W53", y), fmt.Sprintf("%04d-W53", y))
+			}
+			pat = Pick(r, bad)
+			f.reject = true
+			kind = "nonexistent"
 		}
 		add("--period", pat, "period="+hx(pat))
 		f.desc = "period:" + kind
@@ -404,7 +418,7 @@ func init() {
 			}
 			f := genFlags(r, doc, today, force)
 			return map[string]any{"text": hx(doc.Text), "cli": f.cli, "model": f.model, "today": []int{today.y, today.m, today.d},
-				"expect": oracleFilter(doc, f), "sort": f.sort, "desc": f.desc, "nrec": len(doc.Records)}
+				"expect": oracleFilter(doc, f), "sort": f.sort, "desc": f.desc, "nrec": len(doc.Records), "reject": f.reject}
 		},
 		Run: runC13,
 	})
@@ -435,6 +449,16 @@ func runC13(env *Env, data map[string]any) *Outcome {
 	}
 	margs := append([]string{"filter", hx(text), fmt.Sprint(td[0]), fmt.Sprint(td[1]), fmt.Sprint(td[2])}, strs(data, "model")...)
 	model := env.Drv.Ask(margs...)
+	if boolv(data, "reject") {
+		if model != "flag-error" {
+			o.Findings = append(o.Findings, Finding{Kind: "K", What: "K.C13.filter: the model accepts a period that does not exist", Impl: impl, Model: model})
+		}
+		if res.Panic != "" || res.Code == 0 {
+			o.Findings = append(o.Findings, Finding{Kind: "D", What: "a period that does not exist (" + strings.Join(cliFlags, " ") + ") is not refused", Impl: short(impl, 300), Signature: crashSignature("C13", res.Panic, data)})
+		}
+		o.Tags = append(o.Tags, "rejected-period")
+		return o
+	}
 	nrec := num(data, "nrec")
 	compareK := true
 	if str(data, "sort") != "" && nrec > 12 {
